@@ -31,6 +31,33 @@ TEMPLATES = [
 ]
 
 
+# every form of type expression, alone in a program (another type in the same file could import the name it needs), in
+# every position whose type is emitted: (type, a value of it)
+TYPE_FORMS = [("Int?", "None"), ("{Int, Str}", "1"), ("{Int?, Str?}", "None"), ("{Int?, Str}", "\"s\""), ("{Int, Str, Bool}", "True"), ("(Int, Str)", "(1, \"a\")"),
+              ("(Int?, Str)", "(None, \"a\")"), ("({Int, Str}, Int)", "(1, 2)"), ("(Int, (Str, Int))", "(1, (\"a\", 2))"), ("{(Int, Int), Str}", "\"s\""),
+              ("{(Int, Int)?, Str?}", "None"), ("Int -> Int", "\\q: Int => q + 1"), ("(Int, Int) -> Int", "\\q: Int, w: Int => q + w"), ("List[Int]", "[1]"),
+              ("List[(Int, Str)]", "[(1, \"a\")]"), ("Set[Int]", "{1}"), ("Dict[Int, Str]", "{1 => \"a\"}"), ("Any", "1"), ("List[{Int, Str}]", "[1]"), ("{List[Int], Str}", "\"s\""),
+              ("{Int?, Str?, Bool?}", "None"), ("({Int?, Str?}, Int)", "(None, 1)")]
+TYPE_POSITIONS = {
+    "definition": "def x: {T} := {V}\nprint(\"done\")\n",
+    "parameter": "def f(a: {T}) -> Int => 1\nprint(f({V}))\n",
+    "return": "def f() -> {T} => {V}\ndef r := f()\nprint(\"done\")\n",
+    "field": "class K\n    def fld: {T} := {V}\ndef k := K()\nprint(\"done\")\n",
+    "class-argument": "class K(def c: {T})\ndef k := K({V})\nprint(\"done\")\n",
+    "method-parameter": "class K\n    def m(fin self, a: {T}) -> Int => 1\nprint(K().m({V}))\n",
+    "local-definition": "def f() -> Int =>\n    def x: {T} := {V}\n    1\nprint(f())\n",
+    "handle-definition": "class MyErr(msg: Str): Exception(msg)\ndef g(x: Int) -> Int raise [MyErr] => x\ndef h9() -> {T} => {V}\ndef x: {T} := h9() handle\n    err: MyErr => {V}\nprint(\"done\")\n".replace("h9() handle", "h9() handle") ,
+}
+
+
+def type_grid():
+    out = []
+    for t, v in TYPE_FORMS:
+        for pos, tmpl in TYPE_POSITIONS.items():
+            out.append(tmpl.replace("{T}", t).replace("{V}", v))
+    return out
+
+
 def with_docstrings(t):
     """the template with a doc-string statement (and a comment) placed before, between and after its top-level statements:
     whatever stands in the module, the support imports come first"""
@@ -51,7 +78,7 @@ N_BASE = len(TEMPLATES)
 def run(chk):
     global TEMPLATES
     if len(TEMPLATES) == N_BASE:
-        TEMPLATES = TEMPLATES + [v for t in TEMPLATES[:N_BASE] for v in with_docstrings(t)]
+        TEMPLATES = TEMPLATES + [v for t in TEMPLATES[:N_BASE] for v in with_docstrings(t)] + type_grid()
     thorough = chk.tier == "thorough"
     ok = chk.build_harness()
     if chk.lake_build(["MambaVerif.Props.C16", "mvdrv"]):
